@@ -19,6 +19,8 @@ SPEC = {
             'chain) x phase (3 commit states + retry query, 3 execute states, contracts not yet initialised). For every oracle i of the world '
             'one real plugin (NewPlugin) over a real ccipChainReader whose contract readers and chain writers exist only for the chains of '
             'i\'s role; Observation of i (panic / error / canonicalised observation) and ValidateObservation of every oracle j on it. '
+            'Execute: 1 world in 12 puts a report of an unconfigured chain (13) into the previous outcome (class pending-unknown-chain): outside the '
+            'stable-home-configuration hypothesis, judged for model/implementation agreement only, never as a violation. '
             'One case per (world, i). non-trivial = i does not read every chain and the observation carries data (or fails); distinct by full input',
     'trusted': ['contract readers, chain writers and the price reader are scripted fakes below the real ccipChainReader (JSON-filled '
                 'return values); they answer only for chains of the oracle\'s role and fail exactly the scripted calls',
@@ -33,7 +35,11 @@ SPEC = {
                     'RMN remote config absent or well-formed with at least F+1 signers, non-overlapping commit reports, fChain >= 1); '
                     'an honest oracle reading e.g. a zero native-token price or an RMN remote config with fewer than F+1 signers has its '
                     'whole observation rejected - outside the role question, not examined further',
-                    'a retry query (RetryRMNSignatures) is only sent in the BuildingReport phase (honest leader)'],
+                    'a retry query (RetryRMNSignatures) is only sent in the BuildingReport phase (honest leader)',
+                    'stable home configuration (pending_known): the previous execute outcome names only chains with a configured F - '
+                    'the merges that produced it need an F for every chain they keep, so this holds as long as the home-chain config '
+                    'did not lose a chain between two rounds; since F13d validation rejects observations mentioning a chain without F and '
+                    'the GetMessages observation repeats the pending reports, so without it every honest GetMessages observation is rejected'],
     'level_text': 'Proof: Coq theorems over executable models of commit/execute Plugin.Observation (role behaviour of every processor incl. '
                   'the reader-existence guards of pkg/reader/ccip.go, in the result monad) and Plugin.ValidateObservation: C11_commit - for all '
                   'role assignments, oracles, reader states, failing-call patterns and phases the commit observation is produced without panic '
